@@ -81,7 +81,7 @@ func c14RoundTrip(fam string, aux int, ser func() ([]byte, error)) (string, bool
 		return "re-parse panics: " + msg, false
 	}
 	if !res.OK {
-		return "its own bytes do not parse: " + errClass(res.Err), false
+		return "its own bytes do not parse: " + rejectClass(fam, b, res.Err), false
 	}
 	if res.HasRem && len(res.Rem) != 0 {
 		return fmt.Sprintf("its own bytes leave a %d-byte remainder", len(res.Rem)), false
